@@ -10,7 +10,7 @@ def run(ctx):
     ctx.tlc_must_pass("MC_Lexer.tla", "MC_Lexer_quick6.cfg" if q else "MC_Lexer_thorough7.cfg", workers=8 if q else 14, heap="2g" if q else "4g",
                       timeout=2400, label="Lexer: PrintFormReadsBack, NoteFixpoint")
     common.replay_layer(ctx, "MC_Reporters.tla", "MC_Reporters_quick.cfg" if q else "MC_Reporters_thorough.cfg", "print-replay", "print",
-                        args={"stride": 1}, workers=10, heap="3g")
+                        args={"stride": 1}, workers=10, heap="3g", env_extra={"VERIF_BIN": ctx.build_binary()})
     # decimal quantities: rounded to two decimals on the way through print
     res = ctx.drv("print-decimal", outfile=ctx.scratch + "/pd_mm.ndjson", args={"files": 300 if q else 5000})
     ctx.add("evaluations", res["runs"])
